@@ -309,3 +309,7 @@ def run(R):
         function_obligations(R, W, f, scens, npoints=npts)
     helper_obligations(R, W, scens[0], only=set(ALG_HELPERS), npoints=npts)
     lemma_obligations(R, W, ALGEBRA_LEMMAS, ['freeT', 'onshell'], npoints=npts)
+    # 'the Riemann and Weyl outputs have their algebraic symmetries': both branches of st_Weyl_down4 (from the cached
+    # Riemann tensor / from the electric and magnetic parts), the 3- and 4-Riemann tensors, on spec and on the real chain
+    from props import lemmas as LM
+    lemma_obligations(R, W, [('Riemann3 symmetries', LM.L_riemann3), ('Riemann4 symmetries', LM.L_riemann4), ('Weyl tensor', LM.L_weyl)], ['onshell'], npoints=1)
